@@ -208,6 +208,18 @@ def desugar_closures(facts, body, rounds=2):
             t = blk.term
             if blk.cleanup or t.kind != "call" or t.callee.indirect or t.target is None: continue
             n = t.callee.name
+            if n in ("call_once", "call_mut", "call") and "std::ops::Fn" in (str(t.callee.trait or "") + t.callee.path) and len(t.args) == 2:
+                # `f(x)` on a closure that was handed in (and is visible after inlining the function that receives it)
+                target = None; env_local = None
+                from .cfg import Slice
+                orig = Slice(cur, du).origins(t.args[0])
+                if len(orig) == 1 and orig[0][0] == "agg" and isinstance(orig[0][1].agg, dict) and orig[0][1].agg.get("closure"):
+                    target = by_path.get(orig[0][1].agg["closure"]); env_local = orig[0][1].lhs.l
+                elif len(orig) == 1 and orig[0][0] == "const" and (orig[0][1].const or {}).get("fn"):
+                    target = by_path.get(orig[0][1].const["fn"])
+                if target is not None and len(target.d["blocks"]) <= MAX_CLOSURE_BLOCKS and getattr(cur, "origin", cur).path != target.path:
+                    jobs.append((blk.idx, "direct", n, target, env_local))
+                continue
             if n not in ONE_SHOT and n not in LOOPING: continue
             p = (t.callee.resolved or t.callee.path)
             self_ty = t.callee.impl_self or ""
@@ -275,6 +287,21 @@ def desugar_closures(facts, body, rounds=2):
                 return st
             rty = cb.d["locals"][0]; rty = rty if isinstance(rty, str) else rty.get("ty", "")
             res = fresh(rty)
+            if kind == "direct":
+                # arguments arrive as one tuple: parameter i is its field i
+                st = enter([], None)
+                tup = args[1]
+                tl = tup["m"] if "m" in tup else tup.get("c")
+                if tl is None: continue
+                for i in range(nparams):
+                    st.append(_use(_L(first_param + i), {"m": _L(tl["l"], list(tl["p"]) + [".%d" % i])}, sp))
+                E = new_block(st, {"t": "goto", "target": boff, "sp": sp})
+                for rb in ret_blocks:
+                    blocks[rb]["stmts"].append(_use(dest, {"m": _L(off)}, sp))
+                    blocks[rb]["term"] = {"t": "goto", "target": cont, "sp": sp}
+                blocks[bi]["term"] = {"t": "goto", "target": E, "sp": sp, "syn_call": t.get("callee", {}).get("path")}
+                done.append((cb.path, n, sp))
+                continue
             if kind in ("option", "result"):
                 good = 1 if kind == "option" else 0
                 gname, bname = ("Some", "None") if kind == "option" else ("Ok", "Err")
